@@ -1,17 +1,37 @@
 //! Supporting Functions and Types (VirtualTargetPath)
-use std::collections::HashMap;
+use std::collections::{BTreeMap, HashMap};
 use std::fmt;
 use std::fmt::Debug;
 use std::str;
 
 use serde::de::{Deserialize, Deserializer, Error as DeserializeError};
-use serde::Serialize;
+use serde::{Serialize, Serializer};
 
 use crate::crypto::{HashAlgorithm, HashValue};
 use crate::{Error, Result};
 
 /// Description of a target, used in verification.
 pub type TargetDescription = HashMap<HashAlgorithm, HashValue>;
+
+/// Serialize a map of artifacts with every digest map written in a
+/// deterministic order (sorted by algorithm) rather than in the incidental
+/// iteration order of the underlying hash map.
+pub fn serialize_artifacts<S>(
+    artifacts: &BTreeMap<VirtualTargetPath, TargetDescription>,
+    ser: S,
+) -> ::std::result::Result<S::Ok, S::Error>
+where
+    S: Serializer,
+{
+    let sorted: BTreeMap<
+        &VirtualTargetPath,
+        BTreeMap<&HashAlgorithm, &HashValue>,
+    > = artifacts
+        .iter()
+        .map(|(path, digests)| (path, digests.iter().collect()))
+        .collect();
+    sorted.serialize(ser)
+}
 
 /// Wrapper for the Virtual path to a target.
 #[derive(Debug, Clone, PartialEq, Hash, Eq, PartialOrd, Ord, Serialize)]
